@@ -172,7 +172,10 @@ def run_step(delta, has_ct, pressure_at, remaining, deleting, with_delete_handle
             from kopf._cogs.structs import patches, finalizers
             import functools
             mem = await w.memories.recall(w.server.obj)
-            mem.remaining_patch = patches.Patch(fns=[functools.partial(finalizers.block_deletion, finalizer=FIN)])
+            # the transformation a 422-rejected JSON-patch left behind: adding the finalizer, or (deleting) releasing the object
+            # after the delete handlers had finished in the previous cycle
+            fn = finalizers.allow_deletion if deleting else finalizers.block_deletion
+            mem.remaining_patch = patches.Patch(fns=[functools.partial(fn, finalizer=FIN)])
         start = 100
         await asyncio.sleep(start)
         if pressure_at is not None:
@@ -198,8 +201,6 @@ def h_step(delta: int, has_ct: bool, has_pressure: bool, pressure_at: int, remai
     vkopf.begin_path()
     remaining, deleting = vkopf.pin('remaining', remaining), vkopf.pin('deleting', deleting)
     has_ct, handled, has_pressure = vkopf.pin('has_ct', has_ct), vkopf.pin('handled', handled), vkopf.pin('has_pressure', has_pressure)
-    if remaining and deleting:
-        return True
     try:
         ev_result = vkopf.cell().get('ev_result', False)
         log, start, t_end, fins, gone, w = run_step(delta, has_ct, pressure_at if has_pressure else None, remaining,
@@ -233,11 +234,16 @@ def h_step(delta: int, has_ct: bool, has_pressure: bool, pressure_at: int, remai
             ok = False            # ... and not delayed for longer than that
         if has_ct and woken:
             vkopf.witness('woken_skipped')
-    # the finalizer is never released in the inconsistent state
-    if deleting and not consistent and not gone and FIN not in (fins or []):
+    # the finalizer is never released in the inconsistent state (a release carried over from the previous, consistent cycle
+    # is delivered as it is -- and no delete handler runs a second time for it)
+    if deleting and not remaining and not consistent and not gone and FIN not in (fins or []):
         ok = False
-    if deleting and not consistent and gone:
+    if deleting and not remaining and not consistent and gone:
         ok = False
+    if deleting and remaining:
+        vkopf.witness('release_carried_over')
+        if not gone:
+            ok = False
     return vkopf.verdict(ok)
 
 
@@ -486,10 +492,10 @@ def obligations():
     # (three events per cell do not exhaust: > 1600 paths after 20 CPU-minutes for one fully pinned cell -- outside the claim)
     for (remaining, deleting, has_ct, handled, has_pressure) in ((False, False, True, True, True), (False, False, True, False, False),
                                                                   (True, False, True, True, True), (False, True, True, True, True),
-                                                                  (False, False, False, True, False)):
+                                                                  (False, False, False, True, False), (True, True, False, True, False)):
         obs.append(Ob('h_step', {'pin': {'remaining': remaining, 'deleting': deleting, 'has_ct': has_ct, 'handled': handled,
                                          'has_pressure': has_pressure}}, tiers=('quick',), timeout=900, path_timeout=200))
-    obs.append(Ob('h_step', {}, tiers=('quick', 'thorough'), timeout=600, path_timeout=200, twins=['change_ran', 'woken_skipped'], main=False))
+    obs.append(Ob('h_step', {}, tiers=('quick', 'thorough'), timeout=600, path_timeout=200, twins=['change_ran', 'woken_skipped', 'release_carried_over'], main=False))
     for (deleting, handled) in ((False, True), (True, True)):
         obs.append(Ob('h_step', {'ev_result': True, 'pin': {'remaining': False, 'deleting': deleting, 'has_ct': True, 'handled': handled,
                                                            'has_pressure': False}}, tiers=('quick',), timeout=900, path_timeout=200))
